@@ -193,6 +193,14 @@ impl<'a, 'b, Version, Purpose> GenericParser<'a, 'b, Version, Purpose> {
       }
     }
 
+    // validators registered without an expected claim (extend_validation_claims) must run too
+    for (key, box_validator) in &self.claim_validators {
+      if !self.claims.contains_key(key) {
+        let validator = box_validator.as_ref();
+        validator(key, &json[&key])?;
+      }
+    }
+
     Ok(json)
   }
 }
